@@ -671,6 +671,164 @@ class H2(Case):
         return obs
 
 
+# --------------------------------------------------------------------------
+# H2 with time-dependent dissipators: every ingredient of the generator at the sample time
+# --------------------------------------------------------------------------
+_UF = {}
+
+
+def _uf(name, nargs):
+    if name not in _UF:
+        _UF[name] = z3.Function(name, *([z3.RealSort()] * (nargs + 1)))
+    return _UF[name]
+
+
+class OpaqueModel:
+    """user functions H(t, a), gamma_k(t), A_k(t): uninterpreted functions (real valued) in the symbolic
+    run, fixed-degree polynomials with seeded coefficients in the concrete runs"""
+
+    def __init__(self, inp, d, k):
+        self.inp, self.d, self.k = inp, d, k
+        if not inp.symbolic:
+            self.Hc = [inp.arr("Hc%d" % i, (d, d)) for i in range(4)]
+            self.G = inp.arr("Gc", (k, 3))
+            self.LA = [inp.arr("LA%d" % j, (d, d)) for j in range(k)]
+            self.LB = [inp.arr("LB%d" % j, (d, d)) for j in range(k)]
+
+    def _app(self, name, *args):
+        args = [S.of(a) for a in args]
+        return S(_uf(name, len(args))(*[sym.zr(a.re) for a in args]))
+
+    def ham(self, t, a):
+        if not self.inp.symbolic:
+            return self.Hc[0] + t * self.Hc[1] + a * self.Hc[2] + (t * a) * self.Hc[3]
+        out = np.empty((self.d, self.d), dtype=object)
+        for i in range(self.d):
+            for j in range(self.d):
+                out[i, j] = self._app("ham_%d_%d" % (i, j), t, a)
+        return out
+
+    def gamma(self, j):
+        def g(t):
+            if not self.inp.symbolic:
+                return self.G[j, 0] + self.G[j, 1] * t + self.G[j, 2] * t * t
+            return self._app("gam_%d" % j, t)
+        return g
+
+    def lop(self, j):
+        def a(t):
+            if not self.inp.symbolic:
+                return self.LA[j] + t * self.LB[j]
+            out = np.empty((self.d, self.d), dtype=object)
+            for r in range(self.d):
+                for c in range(self.d):
+                    out[r, c] = self._app("lop%d_%d_%d" % (j, r, c), t)
+            return out
+        return a
+
+
+def lindblad_oracle(inp, H, gammas, ops):
+    """row-major vectorisation, real Lindblad operators A (A^dagger = A^T), entry by entry:
+    L = -i[H,.] + sum_k g_k ( A (x) A - 1/2 (A^T A) (x) 1 - 1/2 1 (x) (A^T A)^T )"""
+    d = H.shape[0]
+    L = liouvillian_oracle(inp, H)
+    for g, A in zip(gammas, ops):
+        AtA = A.T @ A
+        for i in range(d):
+            for j in range(d):
+                for k in range(d):
+                    for l in range(d):
+                        v = A[i, k] * A[j, l]
+                        if j == l:
+                            v = v - AtA[i, k] / 2
+                        if i == k:
+                            v = v - AtA[l, j] / 2
+                        L[i * d + j, k * d + l] = L[i * d + j, k * d + l] + g * v
+    return L
+
+
+class ThetaQuad:
+    """quad_vec for opaque integrands: the value depends on the integrand only through its values on
+    [a, b]; the stub evaluates it at the arbitrary point a + theta (b - a), theta symbolic in [0, 1], and
+    records the limits -- two integrands that agree there for all theta agree on the whole interval"""
+
+    def __init__(self, theta):
+        self.theta = theta
+        self.calls = []
+
+    def __call__(self, f, a, b, epsrel=None, limit=None, **kw):
+        self.calls.append((a, b, epsrel, limit))
+        return (b - a) * f(a + self.theta * (b - a)), None
+
+
+class H2D(Case):
+    functions = H2.functions + ("TimeDependentSystem.get_propagators", "TimeDependentSystem.liouvillian")
+    stubs = ("scipy.linalg.expm -> records its argument, returns a fresh symbolic matrix",
+             "scipy.integrate.quad_vec -> (b-a)*integrand(a + theta (b-a)) with symbolic theta in [0,1], limits recorded",
+             "user Hamiltonian H(t, a), rates gamma_k(t), Lindblad operators A_k(t) -> uninterpreted real-valued functions",
+             "np.vectorize wrappers installed by the constructors replaced by the user's callables themselves")
+    timeout_s = 120
+    first_timeout_s = 5
+
+    def __init__(self, subdiv, k, d=2):
+        self.subdiv, self.k, self.d = subdiv, k, d
+        self.id = "H2/dissipators_%s_k%d_d%d" % ("sampled" if subdiv is None else "integrated", k, d)
+        self.bounds = {"d": d, "subdiv_limit": subdiv, "dissipators": k, "steps": [0, 1]}
+        self.env = {"extra": sym_env_extra()}
+
+    def run(self, inp):
+        d, k = self.d, self.k
+        start = inp.real("t0", lo=-2, hi=2)
+        dt = inp.real("dt", lo=0.25, hi=2)
+        theta = inp.real("theta", lo=0, hi=1)
+        mdl = OpaqueModel(inp, d, k)
+        gam = [mdl.gamma(j) for j in range(k)]
+        lops = [mdl.lop(j) for j in range(k)]
+        dummy_g = [(lambda t: 1.0) for _ in range(k)]
+        dummy_a = [(lambda t: np.identity(d)) for _ in range(k)]
+        from vf.env import patched
+        obs = []
+        for step in (0, 1):
+            f = inp.real("f%d" % step)
+            g = inp.real("g%d" % step)
+            tn = start + step * dt
+            # the system under test
+            sysf = oqupy.TimeDependentSystemWithField(lambda t, a: np.zeros((d, d)) + 0.0 * t, gammas=dummy_g,
+                                                      lindblad_operators=dummy_a)
+            sysf._hamiltonian, sysf._gammas, sysf._lindblad_operators = mdl.ham, list(gam), list(lops)
+            # the plain time-dependent system with the Hamiltonian along the linearised field of this step
+            plain_h = (lambda tau, f=f, g=g, tn=tn: mdl.ham(tau, f + g * (tau - tn)))
+            sysp = oqupy.TimeDependentSystem(lambda t: np.zeros((d, d)) + 0.0 * t, gammas=dummy_g, lindblad_operators=dummy_a)
+            sysp._hamiltonian, sysp._gammas, sysp._lindblad_operators = plain_h, list(gam), list(lops)
+            ex1, ex2 = ExpmStub(inp), ExpmStub(inp)
+            q1, q2 = ThetaQuad(theta), ThetaQuad(theta)
+            with patched({"oqupy.system.expm": ex1, "oqupy.system.integrate": types.SimpleNamespace(quad_vec=q1)}):
+                sysf.get_propagators(dt, start, self.subdiv, 1e-6)(step, f, g)
+            with patched({"oqupy.system.expm": ex2, "oqupy.system.integrate": types.SimpleNamespace(quad_vec=q2)}):
+                sysp.get_propagators(dt, start, self.subdiv, 1e-6)(step)
+            obs.append(Ob.holds("step %d: two exponentials each" % step, len(ex1.args) == 2 and len(ex2.args) == 2))
+            if len(ex1.args) != 2 or len(ex2.args) != 2:
+                continue
+            if self.subdiv is None:
+                pts = [(tn + dt / 4, dt / 2), (tn + 3 * dt / 4, dt / 2)]
+            else:
+                pts = [(tn + theta * (dt / 2), dt / 2), (tn + dt / 2 + theta * (dt / 2), dt / 2)]
+                lim = [c[:2] for c in q1.calls]
+                obs.append(Ob.holds("step %d: two quadratures" % step, len(q1.calls) == 2 and len(q2.calls) == 2))
+                if len(q1.calls) == 2:
+                    obs.append(Ob.eq("step %d: integration limits" % step, [lim[0][0], lim[0][1], lim[1][0], lim[1][1]],
+                                     [tn, tn + dt / 2, tn + dt / 2, tn + dt]))
+            for h, (ts, w) in enumerate(pts):
+                half = "first" if h == 0 else "second"
+                obs.append(Ob.eq("step %d: %s half-step generator == plain TimeDependentSystem" % (step, half),
+                                 ex1.args[h], ex2.args[h]))
+                exp = lindblad_oracle(inp, mdl.ham(ts, f + g * (ts - tn)), [x(ts) for x in gam], [x(ts) for x in lops]) * w
+                obs.append(Ob.eq("step %d: %s half-step generator, every ingredient at the sample time" % (step, half),
+                                 ex1.args[h], exp))
+        return obs
+
+
+
 def cases(tier):
     cs = [
         # compute_dynamics_with_field, autonomous equation of motion: holds
@@ -687,7 +845,7 @@ def cases(tier):
         Mft("poly", 2, 1, coupling="sparse"),
         # cross-method
         Cross("polyauto", 2, 1), Cross("poly", 2, 1),
-        H2(None), H2(4),
+        H2(None), H2(4), H2D(None, 1), H2D(4, 2),
     ]
     if tier == "thorough":
         cs += [
@@ -702,6 +860,6 @@ def cases(tier):
             Cross("polyauto", 3, 1, coupling="none"), Cross("polyauto", 3, 2, coupling="none"), Cross("polyauto", 2, 1, dims=(2, 2)),
             Cross("polyauto", 2, 1, record_all=False), Cross("poly", 3, 2, coupling="none"), Cross("polyauto", 3, None, coupling="none"),
             Cross("polyauto", 2, 2), Cross("polyauto", 2, None),
-            H2(None, d=3),
+            H2(None, d=3), H2D(None, 2), H2D(4, 1),
         ]
     return cs
